@@ -75,11 +75,18 @@ def _run_case(case, ctx):
         R = int(rs.randint(1, 4))
         # negative weights are legal for every algorithm as far as the zero-budget clause goes ("whatever its weights");
         # sweeps of the non-negative algorithms are only run from non-negative starts (their domain)
-        wk = gen.choice(rs, ["ones", "positive", "positive", "negative-zero-budget-only", "mixed-zero-budget-only"] if (nonneg or algo == "constrained_parafac")
-                        else ["ones", "positive", "negative", "mixed"])
+        wk = gen.choice(rs, ["ones", "positive", "positive", "some-ones", "negative-zero-budget-only", "mixed-zero-budget-only"] if (nonneg or algo == "constrained_parafac")
+                        else ["ones", "positive", "negative", "mixed", "some-ones"])
         zero_only = wk.endswith("zero-budget-only")
         wk = wk.replace("-zero-budget-only", "")
-        w = {"ones": np.ones(R), "positive": rs.uniform(0.3, 3, R), "negative": -rs.uniform(0.3, 3, R), "mixed": rs.uniform(0.3, 3, R) * rs.choice([-1, 1], R)}[wk]
+        if wk == "some-ones":
+            # some (not all) weights exactly one: "are the weights trivial?" shortcuts must not treat this vector as all-ones
+            R = max(R, 2)
+        w = {"ones": np.ones(R), "positive": rs.uniform(0.3, 3, R), "negative": -rs.uniform(0.3, 3, R), "mixed": rs.uniform(0.3, 3, R) * rs.choice([-1, 1], R),
+             "some-ones": rs.uniform(0.3, 3, R)}[wk]
+        if wk == "some-ones":
+            ones_at = rs.choice(R, size=int(rs.randint(1, R)), replace=False)
+            w[ones_at] = 1.0
         fs = [(rs.uniform(0.1, 1, (s, R)) if nonneg else rs.standard_normal((s, R))) for s in shp]
         form = gen.choice(rs, ["tuple", "list", "wrapper"])
         opts = {}
@@ -138,11 +145,17 @@ def _run_case(case, ctx):
             fixed = list(range(order))
             all_fixed = True
         sweeps = int(rs.randint(0, 4))
-        desc2 = dict(desc, fixed_modes=fixed, sweeps=sweeps)
+        # the set of fixed modes in any container a caller may reasonably pass
+        cont = gen.choice(rs, ["list", "list", "tuple", "range"])
+        if cont == "range" and fixed != list(range(fixed[0], fixed[0] + len(fixed))):
+            cont = "tuple"
+        fixed_arg = {"list": list(fixed), "tuple": tuple(fixed), "range": range(fixed[0], fixed[0] + len(fixed))}[cont]
+        desc2 = dict(desc, fixed_modes=fixed, sweeps=sweeps, container=cont)
         ctx.nontriv(dict(desc2, clause="fixed"))
+        ctx.count("fixed_container/" + cont)
         init_obj = mk_init(w, fs)
         try:
-            rf = decomp.run(algo, data, R, sweeps, dict(opts, fixed_modes=list(fixed)), seed, tol=1e-100, init=init_obj)
+            rf = decomp.run(algo, data, R, sweeps, dict(opts, fixed_modes=fixed_arg), seed, tol=1e-100, init=init_obj)
         except np.linalg.LinAlgError:
             raise
         except Exception as e:  # noqa
